@@ -154,6 +154,61 @@ pub mod string {
             out.push_str(s);
             out
         }
+        pub fn capacity(&self) -> usize {
+            N
+        }
+        pub fn reserve(&mut self, _n: usize) {}
+        pub fn truncate(&mut self, new_len: usize) {
+            if new_len < self.len {
+                assert!(self.as_str().is_char_boundary(new_len));
+                self.len = new_len;
+            }
+        }
+        pub fn remove(&mut self, idx: usize) -> char {
+            let ch = self.as_str()[idx..].chars().next().expect("cannot remove a char from the end of a string");
+            let mut out: BStr<N> = BStr::new();
+            out.push_str(&self.as_str()[..idx]);
+            out.push_str(&self.as_str()[idx + ch.len_utf8()..]);
+            *self = out;
+            ch
+        }
+        pub fn retain<F: FnMut(char) -> bool>(&mut self, mut f: F) {
+            let mut out: BStr<N> = BStr::new();
+            for ch in self.as_str().chars() {
+                if f(ch) {
+                    out.push(ch);
+                }
+            }
+            *self = out;
+        }
+        pub fn into_boxed_str(self) -> Self {
+            self
+        }
+    }
+    impl<const N: usize> Extend<char> for BStr<N> {
+        fn extend<I: IntoIterator<Item = char>>(&mut self, iter: I) {
+            for ch in iter {
+                self.push(ch);
+            }
+        }
+    }
+    impl<'a, const N: usize> Extend<&'a str> for BStr<N> {
+        fn extend<I: IntoIterator<Item = &'a str>>(&mut self, iter: I) {
+            for s in iter {
+                self.push_str(s);
+            }
+        }
+    }
+    impl<const N: usize> core::ops::AddAssign<&str> for BStr<N> {
+        fn add_assign(&mut self, rhs: &str) {
+            self.push_str(rhs);
+        }
+    }
+    impl<const N: usize> core::str::FromStr for BStr<N> {
+        type Err = core::convert::Infallible;
+        fn from_str(s: &str) -> Result<Self, Self::Err> {
+            Ok(Self::from_str_slice(s))
+        }
     }
 
     impl<const N: usize> Default for BStr<N> {
@@ -662,6 +717,54 @@ pub mod vec {
         pub fn reverse_in_place(&mut self) {
             self.as_mut_slice().reverse()
         }
+        pub fn capacity(&self) -> usize {
+            N
+        }
+        pub fn reserve(&mut self, _n: usize) {}
+        pub fn shrink_to_fit(&mut self) {}
+        pub fn extend_from_slice(&mut self, other: &[T])
+        where
+            T: Clone,
+        {
+            for x in other {
+                self.push(x.clone());
+            }
+        }
+        pub fn swap_remove(&mut self, idx: usize) -> T {
+            assert!(idx < self.len);
+            let last = self.len - 1;
+            self.as_mut_slice().swap(idx, last);
+            self.pop().unwrap()
+        }
+        pub fn resize(&mut self, n: usize, value: T)
+        where
+            T: Clone,
+        {
+            while self.len > n {
+                drop(self.pop());
+            }
+            while self.len < n {
+                self.push(value.clone());
+            }
+        }
+        pub fn split_off(&mut self, at: usize) -> Vec<T, N> {
+            assert!(at <= self.len);
+            let n = self.len;
+            self.drain(at..n).collect()
+        }
+        pub fn dedup(&mut self)
+        where
+            T: PartialEq,
+        {
+            let mut i = 1;
+            while i < self.len {
+                if self.as_slice()[i] == self.as_slice()[i - 1] {
+                    drop(self.remove(i));
+                } else {
+                    i += 1;
+                }
+            }
+        }
     }
 
     impl<T, const N: usize> Drop for Vec<T, N> {
@@ -718,6 +821,59 @@ pub mod vec {
         }
     }
     impl<T: Eq, const N: usize> Eq for Vec<T, N> {}
+    impl<T: PartialOrd, const N: usize> PartialOrd for Vec<T, N> {
+        fn partial_cmp(&self, other: &Self) -> Option<core::cmp::Ordering> {
+            self.as_slice().partial_cmp(other.as_slice())
+        }
+    }
+    impl<T: Ord, const N: usize> Ord for Vec<T, N> {
+        fn cmp(&self, other: &Self) -> core::cmp::Ordering {
+            self.as_slice().cmp(other.as_slice())
+        }
+    }
+    impl<T: core::hash::Hash, const N: usize> core::hash::Hash for Vec<T, N> {
+        fn hash<H: core::hash::Hasher>(&self, state: &mut H) {
+            self.as_slice().hash(state)
+        }
+    }
+    impl<T, const N: usize> AsRef<[T]> for Vec<T, N> {
+        fn as_ref(&self) -> &[T] {
+            self.as_slice()
+        }
+    }
+    impl<T, const N: usize> core::borrow::Borrow<[T]> for Vec<T, N> {
+        fn borrow(&self) -> &[T] {
+            self.as_slice()
+        }
+    }
+    impl<T: Clone, const N: usize> From<&[T]> for Vec<T, N> {
+        fn from(s: &[T]) -> Self {
+            let mut v = Vec::new();
+            for x in s {
+                v.push(x.clone());
+            }
+            v
+        }
+    }
+    impl<T, const N: usize, const M: usize> From<[T; M]> for Vec<T, N> {
+        fn from(a: [T; M]) -> Self {
+            let mut v = Vec::new();
+            for x in a {
+                v.push(x);
+            }
+            v
+        }
+    }
+    impl<T: PartialEq, const N: usize> PartialEq<[T]> for Vec<T, N> {
+        fn eq(&self, other: &[T]) -> bool {
+            self.as_slice() == other
+        }
+    }
+    impl<T: PartialEq, const N: usize, const M: usize> PartialEq<[T; M]> for Vec<T, N> {
+        fn eq(&self, other: &[T; M]) -> bool {
+            self.as_slice() == &other[..]
+        }
+    }
     impl<T: core::fmt::Debug, const N: usize> core::fmt::Debug for Vec<T, N> {
         fn fmt(&self, f: &mut core::fmt::Formatter<'_>) -> core::fmt::Result {
             f.debug_list().entries(self.as_slice().iter()).finish()
@@ -1364,6 +1520,38 @@ pub mod collections {
         pub fn values(&self) -> impl Iterator<Item = &V> {
             self.iter().map(|e| e.1)
         }
+        pub fn values_mut(&mut self) -> impl Iterator<Item = &mut V> {
+            self.t.s.iter_mut().filter_map(|e| e.as_mut().map(|e| &mut e.1))
+        }
+        pub fn iter_mut(&mut self) -> impl Iterator<Item = (&K, &mut V)> {
+            self.t.s.iter_mut().filter_map(|e| e.as_mut().map(|e| (&e.0, &mut e.1)))
+        }
+        pub fn drain(&mut self) -> SlotIntoIter<K, V> {
+            let old = core::mem::replace(&mut self.t, Slots::new());
+            SlotIntoIter { s: old.s, i: 0 }
+        }
+    }
+    impl<K: PartialEq, V> Extend<(K, V)> for HashMap<K, V> {
+        fn extend<I: IntoIterator<Item = (K, V)>>(&mut self, iter: I) {
+            for (k, v) in iter {
+                self.insert(k, v);
+            }
+        }
+    }
+    impl<K: PartialEq, V> core::iter::FromIterator<(K, V)> for HashMap<K, V> {
+        fn from_iter<I: IntoIterator<Item = (K, V)>>(iter: I) -> Self {
+            let mut m = HashMap::new();
+            for (k, v) in iter {
+                m.insert(k, v);
+            }
+            m
+        }
+    }
+    impl<K: PartialEq + Borrow<Q>, Q: ?Sized + PartialEq, V> core::ops::Index<&Q> for HashMap<K, V> {
+        type Output = V;
+        fn index(&self, k: &Q) -> &V {
+            self.get(k).expect("no entry found for key")
+        }
     }
     pub struct Entry<'a, K, V> {
         map: &'a mut HashMap<K, V>,
@@ -1397,6 +1585,12 @@ pub mod collections {
         }
         pub fn or_insert(self, v: V) -> &'a mut V {
             self.or_insert_with(|| v)
+        }
+        pub fn or_default(self) -> &'a mut V
+        where
+            V: Default,
+        {
+            self.or_insert_with(V::default)
         }
     }
     impl<K, V> Default for HashMap<K, V> {
@@ -1730,6 +1924,47 @@ pub mod collections {
             }
             out
         }
+        pub fn first_key_value(&self) -> Option<(&K, &V)> {
+            self.iter().next()
+        }
+        pub fn last_key_value(&self) -> Option<(&K, &V)> {
+            self.iter().next_back()
+        }
+        pub fn pop_first(&mut self) -> Option<(K, V)> {
+            let at = self.iter().select(true);
+            if at == MAP {
+                return None;
+            }
+            self.sorted = false;
+            self.t.s[at].take()
+        }
+        pub fn pop_last(&mut self) -> Option<(K, V)> {
+            let at = self.iter().select(false);
+            if at == MAP {
+                return None;
+            }
+            let n = self.t.len();
+            self.sorted = self.sorted && at + 1 == n;
+            self.t.s[at].take()
+        }
+        pub fn values_mut(&mut self) -> impl Iterator<Item = &mut V> {
+            // unordered is enough for the in-place updates this is used for
+            self.t.s.iter_mut().filter_map(|e| e.as_mut().map(|e| &mut e.1))
+        }
+        pub fn retain<F: FnMut(&K, &mut V) -> bool>(&mut self, mut f: F) {
+            let mut i = 0;
+            while i < MAP {
+                let keep = match &mut self.t.s[i] {
+                    Some(e) => f(&e.0, &mut e.1),
+                    None => true,
+                };
+                if !keep {
+                    self.t.s[i] = None;
+                    self.sorted = false;
+                }
+                i += 1;
+            }
+        }
         /// Harness set-up only: store an entry whose key the caller guarantees to be absent (next free slot, concrete shape).
         pub fn harness_push_ascending(&mut self, k: K, v: V) {
             #[cfg(not(kani))]
@@ -1758,6 +1993,22 @@ pub mod collections {
     impl<K: core::fmt::Debug + Ord, V: core::fmt::Debug> core::fmt::Debug for BTreeMap<K, V> {
         fn fmt(&self, f: &mut core::fmt::Formatter<'_>) -> core::fmt::Result {
             f.debug_map().entries(self.iter()).finish()
+        }
+    }
+    impl<K: Ord, V> Extend<(K, V)> for BTreeMap<K, V> {
+        fn extend<I: IntoIterator<Item = (K, V)>>(&mut self, iter: I) {
+            for (k, v) in iter {
+                self.insert(k, v);
+            }
+        }
+    }
+    impl<K: Ord, V> core::iter::FromIterator<(K, V)> for BTreeMap<K, V> {
+        fn from_iter<I: IntoIterator<Item = (K, V)>>(iter: I) -> Self {
+            let mut m = BTreeMap::new();
+            for (k, v) in iter {
+                m.insert(k, v);
+            }
+            m
         }
     }
     impl<K: Ord, V> IntoIterator for BTreeMap<K, V> {
